@@ -767,9 +767,9 @@ Proof. exact fw_two_rounds. Qed.
    ValidRound = LockedRound = r and the valid block IS the locked block (same hash) - given that
    the valid block is backed by the polka of its round (C03_reachable_lock_backed: every run)
    and ValidRound <= r with ValidRound < r when there is no valid block (ordering facts of the
-   fields, NOT yet derived from reachability: that 'locked on X => valid block X or a later valid
-   round' is an invariant of ALL runs of the repaired model remains to be proved; the
-   refutation witnesses above no longer apply to it: C03_relock_repaired). *)
+   fields; both are derived from reachability, together with the invariant 'locked on X => valid
+   block X or a later valid round' of ALL runs of the repaired model, in C03_reachable_lock_is_valid
+   below). *)
 From TM Require Import C03.LockValid.
 
 Theorem C03_relock_sets_valid :
@@ -794,3 +794,91 @@ Example C03_relock_sets_valid_nonvacuous :
   o_maj23 (prevotes (cs_votes s) 6) = Some w_X /\ cs_lblock s = Some lv_bX /\ cs_vround s = 2 /\
   lv_view (fst (enter_precommit (lv_env 0) 1 6 s)) = (6, SPrecommit, (6, Some 5%N), (6, Some 5%N)).
 Proof. vm_compute. repeat split. Qed.
+
+(* ================================================================== the lock / valid-block invariant of the
+   repaired machine (F70, F83), over ALL runs from the initial state, one machine, arbitrary
+   inputs (C03/LockValidInv.v: an invariant through every handler, together with Backed):
+     (a) 0 <= Round, ValidRound <= Round, -1 <= LockedRound <= Round;
+     (b) outside the Commit step, the current round's polka for the proposal block held has been
+         taken as valid block (ValidRound = Round, ValidBlock has that hash);
+     (c) locked on X => there is a valid block, ValidRound >= LockedRound, and the valid block is
+         X (same hash) OR ValidRound > LockedRound.
+   (c) is clause inv_lock_valid of Sync.Inv.  The second alternative of (c) cannot be dropped
+   ('locked on X => valid block X' alone is FALSE also of the repaired model: C03_lock_valid_transient):
+   handleCompleteProposal takes the proposal block as valid block on the current round's polka
+   without looking at the lock.  That state is transient and harmless for liveness: the valid
+   block is backed by a held polka of a round above the lock round for another block, which is
+   exactly what the unlock rule of the next prevote step (F70) releases the lock on, and a
+   re-lock before that moves the valid block too (F83). *)
+From TM Require Import C03.LockValidInv C03.TermReach.
+
+Theorem C03_reachable_lock_is_valid :
+  forall (E : env) (height : Z) (lc : option voteset) (ins : list input),
+    let s := fst (run E (init_state E height lc) ins) in
+    (0 <= cs_round s /\ cs_vround s <= cs_round s /\ -1 <= cs_lround s <= cs_round s) /\
+    (cs_step s <> SCommit -> forall h ph,
+       o_maj23 (prevotes (cs_votes s) (cs_round s)) = Some (Some (h, ph)) -> hashes_to (cs_pblock s) h = true ->
+       cs_vround s = cs_round s /\ hashes_to (cs_vblock s) h = true) /\
+    (forall lb, cs_lblock s = Some lb ->
+       exists vb, cs_vblock s = Some vb /\ cs_lround s <= cs_vround s /\
+                  (b_hash vb = b_hash lb \/ cs_lround s < cs_vround s)).
+Proof. exact reachable_lock_is_valid. Qed.
+Print Assumptions C03_reachable_lock_is_valid.
+
+(* the transient state on the model of record: the first 21 inputs of the F83 run (no re-lock among
+   them: both machines agree) - locked on X = 5 since round 0, valid block Y = 7 of round 2, step
+   Propose of round 2; the next prevote step releases the lock and prevotes the block held, Y *)
+Theorem C03_lock_valid_transient :
+  let s := fst (run (lv_env 0) (init_state (lv_env 0) 1 None) (firstn 21 lv_prefix)) in
+  lv_view s = (2, SPropose, (0, Some 5%N), (2, Some 7%N)) /\
+  concat (snd (run (lv_env 0) s [lv_tmo 2 SPropose])) = [OSignVote PREVOTE 1 2 w_Y] /\
+  lv_view (fst (run (lv_env 0) s [lv_tmo 2 SPropose])) = (2, SPrevote, (-1, None), (2, Some 7%N)).
+Proof. vm_compute. repeat split. Qed.
+Print Assumptions C03_lock_valid_transient.
+
+(* hence Sync.Inv (and Inv') holds of the abstraction of REACHABLE machines, given only what is not
+   a single-machine fact: pol contains the polkas the machines hold (it is the set of known
+   polkas) and has one polka per round ACROSS machines (quorum intersection under
+   3 * faulty < total: C01) *)
+Theorem C03_reachable_inv :
+  forall (vals : valset) (h : Z) (ms : list machine) (pol : list polka),
+    (forall m, In m ms -> reachable_machine h m) -> knows_held pol ms -> one_per_round pol ->
+    Inv pol (nodes vals ms).
+Proof. exact reachable_Inv. Qed.
+Print Assumptions C03_reachable_inv.
+
+(* C03_sync_round_preserves_invariant and C03_termination_value_level FROM REACHABLE MACHINES: the
+   hypothesis "Inv' at entry" is gone.  Still assumed: knows_held (gossip has delivered the polkas:
+   pol is what the machines hold), one_per_round (quorum intersection across machines), the
+   synchrony relation sync_step itself (all prevotes of a round reach every correct node before its
+   timeout; its link to the code model is C03_sync_round_decides_on_model_faulty for the deciding
+   round and the closed-loop computations of TermSim.v for the others), 3 * faulty < total. *)
+Theorem C03_sync_round_preserves_invariant_reachable :
+  forall (vals : valset) (h : Z) (ms : list machine) (pol : list polka) (r : Z) (c' : config),
+    (forall m, In m ms -> reachable_machine h m) -> knows_held pol ms -> one_per_round pol ->
+    sync_step r (pol, nodes vals ms) c' -> Inv' (fst c') (snd c').
+Proof. exact sync_step_preserves_Inv'_reachable. Qed.
+Print Assumptions C03_sync_round_preserves_invariant_reachable.
+
+Theorem C03_termination_value_level_reachable :
+  forall (vals : valset) (h : Z) (ms : list machine) (pol : list polka) (r0 : Z) (k : nat) (c' : config)
+         (proposer : node) (fresh : value) (total faulty_power : Z),
+    (forall m, In m ms -> reachable_machine h m) -> knows_held pol ms -> one_per_round pol ->
+    sync_reach r0 k (pol, nodes vals ms) c' -> In proposer (snd c') ->
+    total = Sync.total_power (snd c') + faulty_power -> 0 <= faulty_power -> 3 * faulty_power < total ->
+    ((forall n, In n (map (unlock (fst c')) (snd c')) -> n_lock n = None) \/
+     (exists lr lv, n_lock (unlock (fst c') proposer) = Some (lr, lv))) ->
+    (exists star, is_latest (fst c') star) ->
+    let prop := proposal_of fresh (unlock (fst c') proposer) in
+    (forall n, In n (map (unlock (fst c')) (snd c')) -> prevote_of prop n = prop) /\
+    3 * power_for prop (map (fun n => (n, prevote_of prop n)) (map (unlock (fst c')) (snd c'))) > 2 * total.
+Proof. exact termination_value_level_reachable. Qed.
+Print Assumptions C03_termination_value_level_reachable.
+
+(* non-vacuity: the three machines of C03_rounds_in_sequence_on_model (A locked on X in round 0, B and
+   C unlocked; each a run from the initial state) with pol = the polka of round 0 for X *)
+Example C03_reachable_inv_nonvacuous :
+  let ms := map fst fw_net in
+  (forall m, In m ms -> reachable_machine 1 m) /\ knows_held [(0, Some 5%N)] ms /\ one_per_round [(0, Some 5%N)] /\
+  nodes w_vals ms = fw_nodes.
+Proof. exact fw_reachable. Qed.
